@@ -12,7 +12,8 @@ META = dict(
               "with scripted short reads; hang verdict from SFTP request/response ledger + thread stacks",
     text="Random cases (file 0..300 KiB of position-revealing bytes; prefetch with/without file_size, reads and seeks; "
          "readv with ordered/overlapping/unordered/beyond-EOF/zero-length chunk lists; max_concurrent_requests None,1..8; "
-         "server answering READs with arbitrary short counts; reply gating and sleeps at _async_request/_async_response) "
+         "server answering READs with arbitrary short counts; reply gating and sleeps at _async_request/_async_response; in 40% of cases the prefetch thread is held at the return "
+         "of _async_request until the reader has dispatched the answer, i.e. the answer-before-registration schedule is forced) "
          "run on a real SFTPClient<->SFTPServer pair over an in-memory pipe. Every returned value is compared with the "
          "slice of the served bytes. A call is judged blocked only on logical evidence: caller inside recv(), every "
          "request answered and consumed, every other client thread ended or in the prefetch throttle loop; a sample of "
@@ -45,6 +46,9 @@ def hang_signature(out):
     if st["extents"] == 0 and not st["done"] and out.get("prefetch_starts") and out["prefetch_starts"][-1] == 0:
         return ("hang: read blocked in _read_prefetch->_read_response with nothing outstanding; readv started a prefetch "
                 "with an empty chunk list, so _prefetch_done is never set")
+    if st["extents"] > 0 and out.get("early_answers") and not out["status_replies_to_reads"]:
+        return ("hang: read blocked in _read_prefetch->_read_response with every request answered; an answer dispatched "
+                "before the prefetch thread registered its request was dropped and the extent is never retired")
     return "hang: blocked in %s with every request answered [extents%s done=%s status_replies%s]" % (
         tail, ">0" if st["extents"] else "=0", st["done"], ">0" if out["status_replies_to_reads"] else "=0")
 
@@ -99,6 +103,9 @@ def run(ctx):
         if out.get("short_replies_inside_file"):
             ctx.count("cases_with_short_server_reads")
             ctx.count("short_server_replies_seen", out["short_replies_inside_file"])
+        if out.get("early_answers"):
+            ctx.count("cases_with_answer_before_registration")
+            ctx.count("answers_dispatched_before_registration", out["early_answers"])
         if out.get("status_replies_to_reads"):
             ctx.count("cases_with_status_reply_to_read")
         for r in out.get("results", []):
@@ -141,3 +148,4 @@ def run(ctx):
     ctx.require("cases_with_short_server_reads", ctx.pick(100, 1000))
     ctx.require("cases_with_status_reply_to_read", ctx.pick(40, 500))
     ctx.require("cases_cap_set", ctx.pick(120, 1500))
+    ctx.require("answers_dispatched_before_registration", ctx.pick(150, 2000))
